@@ -105,6 +105,28 @@ pub struct BuiltInPrimitives {
 }
 
 impl BuiltInPrimitives {
+  /// Is this the class of values that are not instances. The natives of such a class
+  /// read their receiver as that kind of value
+  pub fn is_value_class(&self, class: ObjRef<Class>) -> bool {
+    [
+      self.nil,
+      self.bool,
+      self.channel,
+      self.class,
+      self.fun,
+      self.number,
+      self.string,
+      self.list,
+      self.tuple,
+      self.map,
+      self.iter,
+      self.closure,
+      self.method,
+      self.native_fun,
+    ]
+    .contains(&class)
+  }
+
   pub fn for_value(&self, value: Value) -> ObjRef<Class> {
     match value.kind() {
       ValueKind::Bool => self.bool,
